@@ -140,6 +140,12 @@ class LiveClass(object):
             return (base == iff["k"])
 
         def cg_init(cg, variant, env, it=None):
+            nm = env.get("__name__")
+            if nm:
+                if env.get("__name_by__") == "set_name":
+                    cg.set_name(nm)
+                else:
+                    cg.options.name = nm
             if style == "ws":
                 cg.with_sample(dict((f["n"], _mk_type(vsc, f, enums)) for f in fields))
             o = spec.get("options") or {}
@@ -181,15 +187,18 @@ class LiveClass(object):
 
         self.cls = vsc.covergroup(type(cgspec["name"], (object,), {"__init__": cg_init}))
 
-    def new(self, variant=0):
-        return LiveInst(self, variant)
+    def new(self, variant=0, name=None, name_by="options"):
+        return LiveInst(self, variant, name, name_by)
 
 
 class LiveInst(object):
-    def __init__(self, lc, variant):
+    def __init__(self, lc, variant, name=None, name_by="options"):
         self.lc = lc
         self.variant = variant
         self.env = {}
+        if name:
+            self.env["__name__"] = name
+            self.env["__name_by__"] = name_by
         for f in lc.fields + lc.ext:
             self.env[f["n"]] = self._conv(f, self._zero(f))
         self.item = lc.item_cls() if lc.item_cls is not None else None
@@ -334,11 +343,12 @@ def to_source(cgspec):
     return "\n".join(L)
 
 
-def history_source(history, limit=12):
+def history_source(history, cgs=None, limit=12):
     out = []
     for ev in history[:limit]:
         if ev[0] == "new":
-            out.append("i%d = %s(%s)" % (ev[1], ev[2], ev[3]))
+            out.append("i%d = %s(variant=%d)%s" % (ev[1], cgs[ev[2]]["name"] if cgs else "cg#%d" % ev[2], ev[3],
+                                                   "  # named %r via %s" % (ev[4], ev[5]) if len(ev) > 4 and ev[4] else ""))
         elif ev[0] == "sample":
             out.append("i%d.sample(%s)" % (ev[1], ", ".join("%s=%s" % kv for kv in sorted(ev[2].items()))))
         else:
@@ -587,3 +597,455 @@ def gen_disjoint_bins(rng, tvalues, maxdecl=4):
     if rng.random() < 0.3:
         rng.shuffle(out)                   # declaration order != value order
     return out
+
+
+# ------------------------------------------------------- finding predicates
+from .covref import item_values  # noqa: E402
+def _compact(items):
+    rl = sorted(([item_values(i)[0], item_values(i)[-1]] for i in items), key=lambda e: e[0])
+    out = []
+    for r in rl:
+        if out and out[-1][1] >= r[0]:
+            out[-1][1] = max(out[-1][1], r[1])
+        else:
+            out.append(list(r))
+    return out
+
+
+def pop0_early(decl_ranges, excl_ranges):
+    """Mechanism predicate of finding 'exclude-pops-first-range' (DESIGN #22):
+    while the excluded ranges (ascending) are applied to the FIRST range of a
+    declaration, one of them - not the last one - covers all that is left of it.
+    The library then continues that pass with list index -1."""
+    if not decl_ranges or not excl_ranges:
+        return False
+    lo, hi = decl_ranges[0]
+    for k, (xl, xh) in enumerate(excl_ranges):
+        if xl <= lo and hi <= xh:
+            return k < len(excl_ranges) - 1
+        if xl > lo and xh < hi:
+            hi = xl - 1
+        elif lo < xl <= hi:
+            hi = xl - 1
+        elif lo <= xh < hi:
+            lo = xh + 1
+    return False
+
+
+def pop0_decls(rcp):
+    """names of the declarations of a reference coverpoint that satisfy pop0_early"""
+    cp = rcp.spec
+    ex_items = []
+    for _, b in (cp.get("ignore") or []) + (cp.get("illegal") or []):
+        ex_items.extend(b["items"])
+    ex = _compact(ex_items)
+    if not ex:
+        return []
+    out = []
+    if not cp.get("bins"):
+        if rcp.fdesc["t"] == "enum":
+            dr = [[v, v] for v in rcp.tvalues]
+        else:
+            dr = [[rcp.tvalues[0], rcp.tvalues[-1]]]
+        if pop0_early(dr, ex):
+            out.append(None)
+    else:
+        for n, b in cp["bins"]:
+            if b["k"] in ("bin", "array") and pop0_early(_compact(b["items"]), ex):
+                out.append(n)
+    return out
+
+
+
+
+# ================================================= populations (C12 / C13)
+def _gen_pop_cp(rng, name, f, enums, gates, style, allow_excl=True):
+    """a coverpoint with at least one bin and no 'pop0' exclusion pattern"""
+    from . import covref
+    tv = field_values(f, enums)
+    for attempt in range(6):
+        cp = {"name": name, "src": f["n"]}
+        r = rng.random()
+        if r < 0.25:
+            cp["bins"] = None
+            if f["t"] != "enum":
+                cp["options"] = {"auto_bin_max": rng.choice([1, 2, 3, 4, 64])}
+        elif r < 0.7:
+            cp["bins"] = gen_disjoint_bins(rng, tv, maxdecl=3)
+        else:
+            cp["bins"] = gen_regular_bins(rng, tv[0], tv[-1], ndecl=rng.choice([1, 2]),
+                                          tvalues=tv if f["t"] == "enum" else None)
+        if allow_excl and attempt < 4 and rng.random() < 0.4:
+            ign, ill = gen_excludes(rng, tv[0], tv[-1], cp["bins"], tvalues=tv if f["t"] == "enum" else None, p_all=0.0)
+            if ign:
+                cp["ignore"] = ign
+            if ill:
+                cp["illegal"] = ill
+        if rng.random() < 0.3:
+            cp["iff"] = gen_iff(rng, gates, enums, callable_only=(style == "lm"))
+        probe = {"enums": enums, "fields": [f] + gates, "ext": [], "options": {}}
+        rcp = covref.RefCP(cp, probe)
+        if rcp.bins and not pop0_decls(rcp) and len(rcp.bins) <= 16:
+            return cp
+    return {"name": name, "src": f["n"], "bins": [["b0", {"k": "array", "n": None, "items": [[tv[0], tv[min(2, len(tv) - 1)]]]}]]}
+
+
+def gen_population(rng, idx, tag, mode):
+    """1-3 covergroup classes with 1-3 constructor variants each.
+    mode: "plain" | "al" (at_least > 1 somewhere) | "w" (non-uniform weights) | "both" """
+    from . import covref
+    ncls = rng.choice([1, 1, 2, 3])
+    cgs = []
+    for c in range(ncls):
+        style = rng.choice(["ws", "ws", "ro", "lm"])
+        enums = {}
+        gates = [{"n": "g0", "t": "bit", "w": rng.choice([1, 1, 2])}]
+        nf = rng.choice([1, 2, 2, 3])
+        fields = [gen_field(rng, "f%d" % k, kinds=("bit", "bit", "int", "enum"), minw=1, maxw=rng.choice([2, 3, 3, 4]),
+                            enums=enums, tag="%s%d_%d_" % (tag, idx, c)) for k in range(nf)]
+        for en in enums:
+            enums[en] = enums[en][:5]
+        cps = [_gen_pop_cp(rng, "cp%d" % k, fields[k], enums, gates, style) for k in range(nf)]
+        crosses = []
+        if nf >= 2 and rng.random() < 0.45:
+            sel = rng.sample(range(nf), 2)
+            cr = {"name": "x0", "cps": ["cp%d" % i for i in sel]}
+            if rng.random() < 0.3:
+                cr["iff"] = gen_iff(rng, gates, enums, callable_only=(style == "lm"))
+            crosses.append(cr)
+        options = {}
+        items = cps + crosses
+        if mode in ("al", "both"):
+            k = rng.randrange(3)
+            if k == 0:
+                options["at_least"] = rng.choice([2, 3])
+            elif k == 1:
+                options["at_least"] = rng.choice([2, 3])
+                it = rng.choice(items)
+                it.setdefault("options", {})["at_least"] = rng.choice([1, 1, 2, 4])
+            else:
+                it = rng.choice(items)
+                it.setdefault("options", {})["at_least"] = rng.choice([2, 3])
+        if mode in ("w", "both"):
+            if len(items) < 2:
+                # a second coverpoint so that weights can differ
+                cps.append(_gen_pop_cp(rng, "cp%d" % nf, fields[0], enums, gates, style))
+                items = cps + crosses
+            ws = [rng.choice([1, 2, 5]) for _ in items]
+            if len(set(ws)) == 1:
+                ws[0] = 5 if ws[0] != 5 else 1
+            for it, w in zip(items, ws):
+                if w != 1 or rng.random() < 0.5:
+                    it.setdefault("options", {})["weight"] = w
+        elif rng.random() < 0.1:
+            options["weight"] = rng.choice([2, 5])      # covergroup-level weight, uniform for its items
+        allf = fields + gates
+        cg = {"name": "cg_%s%d_%d" % (tag, idx, c), "style": style, "enums": enums,
+              "fields": [] if style == "lm" else allf, "ext": allf if style == "lm" else [],
+              "options": options, "variants": [{"cps": cps, "crosses": crosses}]}
+        # ---- further constructor variants: each must yield a different set of bins
+        keys = {covref.RefShape(cg, 0).value_key}
+        for v in range(rng.choice([0, 0, 1, 1, 2])):
+            for attempt in range(5):
+                import copy
+                var = copy.deepcopy(cg["variants"][0])
+                k = rng.randrange(3)
+                ci = rng.randrange(len(var["cps"]))
+                old = var["cps"][ci]
+                f = [x for x in allf if x["n"] == old["src"]][0]
+                if k == 0:
+                    new = _gen_pop_cp(rng, old["name"], f, enums, gates, style)
+                    for key in ("iff",):
+                        new.pop(key, None)
+                        if key in old:
+                            new[key] = old[key]
+                    oo = dict(old.get("options") or {})
+                    no = dict(new.get("options") or {})
+                    for key in ("at_least", "weight"):
+                        no.pop(key, None)
+                        if key in oo:
+                            no[key] = oo[key]
+                    if no:
+                        new["options"] = no
+                    else:
+                        new.pop("options", None)
+                    var["cps"][ci] = new
+                elif k == 1:
+                    # only the ignore / illegal bins differ: a value outside every regular bin
+                    probe = covref.RefCP(old, cg)
+                    inbins = set()
+                    for _, s in probe.bins:
+                        inbins |= s
+                    free = [x for x in probe.tvalues if x not in inbins and x not in probe.excluded]
+                    if not free or not old.get("bins"):
+                        continue
+                    which = rng.choice(["ignore", "illegal"])
+                    lst = list(old.get(which) or [])
+                    lst.append(["%sv%d" % (which[:2], v), {"k": "bin", "items": [rng.choice(free)]}])
+                    old[which] = lst
+                else:
+                    if var["crosses"] and rng.random() < 0.5:
+                        var["crosses"] = []
+                    elif len(var["cps"]) >= 2 and not var["crosses"]:
+                        var["crosses"] = [{"name": "x0", "cps": [var["cps"][0]["name"], var["cps"][1]["name"]]}]
+                    else:
+                        continue
+                cg["variants"].append(var)
+                try:
+                    sh = covref.RefShape(cg, len(cg["variants"]) - 1)
+                    bad = sh.value_key in keys or any(not c.bins or pop0_decls(c) for c in sh.cps)
+                except Exception:
+                    bad = True
+                if bad:
+                    cg["variants"].pop()
+                    continue
+                keys.add(sh.value_key)
+                break
+        cgs.append(cg)
+    return cgs
+
+
+def gen_history(rng, cgs, nsamp=None, ninst=None):
+    """events: ["new", inst#, cg#, variant] / ["sample", inst#, values]"""
+    ninst = ninst or rng.choice([1, 2, 2, 3, 4, 6])
+    nsamp = nsamp or rng.choice([20, 40, 80, 150])
+    births = sorted([0] + [rng.randrange(0, max(1, nsamp // 2)) for _ in range(ninst - 1)])
+    ev = []
+    insts = []
+    pools = [{f["n"]: [rng.choice(field_values(f, cg["enums"])) for _ in range(3)] for f in cg["fields"] + cg["ext"]}
+             for cg in cgs]
+    focus = None
+    for t in range(nsamp):
+        while births and births[0] <= t:
+            births.pop(0)
+            ci = rng.randrange(len(cgs))
+            # prefer re-using (class, variant) pairs so that types get several instances
+            if insts and rng.random() < 0.55:
+                ci, v = rng.choice(insts)
+            else:
+                v = rng.randrange(len(cgs[ci]["variants"]))
+            insts.append((ci, v))
+            ev.append(["new", len(insts) - 1, ci, v])
+        if focus is None or rng.random() < 0.5:
+            focus = rng.randrange(len(insts))
+        ci = insts[focus][0]
+        cg = cgs[ci]
+        ev.append(["sample", focus, values_for(rng, cg["fields"] + cg["ext"], cg["enums"],
+                                              pools[ci] if rng.random() < 0.6 else None)])
+    return ev
+
+
+class LiveWorld(object):
+    """the live covergroups of a case side by side with the reference World"""
+
+    def __init__(self, cgs):
+        from . import covref
+        self.cgs = cgs
+        self.ref = covref.World(cgs)
+        self.classes = [None] * len(cgs)
+        self.insts = []
+
+    def new(self, cgi, variant, name=None, name_by="options"):
+        if self.classes[cgi] is None:
+            self.classes[cgi] = LiveClass(self.cgs[cgi])
+        li = self.classes[cgi].new(variant, name, name_by)
+        self.insts.append(li)
+        self.ref.new_inst(cgi, variant)
+        return len(self.insts) - 1
+
+    def sample(self, i, values):
+        self.insts[i].sample(values)
+        return self.ref.sample(i, values)
+
+    @staticmethod
+    def _diff(m, t):
+        cps, crs = read_hits(m)
+        out = []
+        if len(cps) != len(t.cp) or len(crs) != len(t.cr):
+            return ["item count: %d coverpoints / %d crosses, reference %d / %d" % (len(cps), len(crs), len(t.cp), len(t.cr))]
+        for ci, (b, g, l) in enumerate(cps):
+            for what, got, exp in (("bins", b, t.cp[ci]), ("ignore", g, t.ign[ci]), ("illegal", l, t.ill[ci])):
+                if got != exp:
+                    out.append("%s %s: library %s reference %s" % (t.shape.cps[ci].name, what, got, exp))
+        for xi, got in enumerate(crs):
+            if got != t.cr[xi]:
+                d = [(i, a, b) for i, (a, b) in enumerate(zip(got, t.cr[xi])) if a != b][:6]
+                out.append("%s: (bin, library, reference) %s%s" % (t.shape.crosses[xi].name, d,
+                                                                 "" if len(got) == len(t.cr[xi]) else " LENGTH %d vs %d" % (len(got), len(t.cr[xi]))))
+        return out
+
+    def diff_inst(self, i):
+        return self._diff(self.insts[i].model, self.ref.insts[i][2])
+
+    def diff_type(self, key):
+        members = self.ref.insts_of(key)
+        return self._diff(self.insts[members[0]].model.type_cg, self.ref.type_tally(key))
+
+    def partition_diff(self):
+        out = []
+        n = len(self.insts)
+        for i in range(n):
+            for j in range(i + 1, n):
+                same_ref = self.ref.type_key(i) == self.ref.type_key(j)
+                same_lib = self.insts[i].model.type_cg is self.insts[j].model.type_cg
+                if same_ref and not same_lib:
+                    out.append(("type-split", "instances i%d and i%d have the same set of bins but different type covergroups" % (i, j), (i, j)))
+                if same_lib and not same_ref:
+                    out.append(("types-merged", "instances i%d and i%d have different sets of bins but share a type covergroup" % (i, j), (i, j)))
+        for key in self.ref.type_keys:
+            members = self.ref.insts_of(key)
+            tcg = self.insts[members[0]].model.type_cg
+            if tcg is None:
+                out.append(("no-type", "instance i%d has no type covergroup" % members[0]))
+                continue
+            want = [self.insts[i].model for i in members]
+            if len(tcg.cg_inst_l) != len(want) or any(a is not b for a, b in zip(tcg.cg_inst_l, want)):
+                out.append(("type-inst-list", "type of i%d lists %d instances, expected %d in creation order" % (
+                    members[0], len(tcg.cg_inst_l), len(want))))
+        return out
+
+
+def _decl_models(rcp):
+    """For the mechanism predicate of finding 'registry-collection-length-unchecked':
+    per surviving declaration of a reference coverpoint -> (name, is_collection,
+    number of sub-models, tuple of value sets).  A declaration is a *collection*
+    in the library when it is a bin array with a count, a bin array without a
+    count whose (compacted, trimmed) value list has more than one run, or
+    numeric auto-bins; with a count n < #values the collection has n sub-models,
+    otherwise one per run."""
+    cp = rcp.spec
+    excl = rcp.excluded
+
+    def nruns(ranges):
+        n = 0
+        for lo, hi in ranges:
+            prev_in = False
+            for v in range(lo, hi + 1):
+                cur = v not in excl
+                if cur and not prev_in:
+                    n += 1
+                prev_in = cur
+        return n
+    out = []
+    if not cp.get("bins"):
+        sets = tuple(tuple(sorted(s)) for _, s in rcp.bins)
+        if rcp.fdesc["t"] == "enum":
+            out.append((rcp.name, False, len(sets), sets))
+        else:
+            nv = sum(len(s) for s in sets)
+            runs = nruns([[rcp.tvalues[0], rcp.tvalues[-1]]])
+            out.append((rcp.name, True, rcp.auto_bin_max if rcp.auto_bin_max < nv else runs, sets))
+        return out
+    for name, b in cp["bins"]:
+        sets = tuple(tuple(sorted(s)) for (n, s), o in zip(rcp.bins, rcp.origin) if o[0] == name)
+        if not sets:
+            continue
+        if b["k"] == "bin":
+            out.append((name, False, 1, sets))
+        elif b["k"] == "array":
+            runs = nruns(_compact(b["items"]))
+            nv = sum(len(s) for s in sets)
+            n = b.get("n")
+            if n is None:
+                out.append((name, runs > 1, runs, sets))
+            else:
+                out.append((name, True, n if n < nv else runs, sets))
+        else:
+            out.append((name, False, len(sets), sets))
+    return out
+
+
+def collection_len_unchecked(sh_a, sh_b):
+    """True iff two shapes of one class differ ONLY in same-named collection
+    declarations that have different numbers of sub-models (the library's
+    CoverpointBinCollectionModel.equals skips the element comparison when the
+    lengths differ and keeps 'equal')."""
+    if sh_a.key[0] != sh_b.key[0] or sh_a.key[2] != sh_b.key[2] or len(sh_a.cps) != len(sh_b.cps):
+        return False
+    found = False
+    for a, b in zip(sh_a.cps, sh_b.cps):
+        if a.name != b.name or a.shape()[2:] != b.shape()[2:]:
+            return False
+        da, db = _decl_models(a), _decl_models(b)
+        if len(da) != len(db):
+            return False
+        for x, y in zip(da, db):
+            if x == y:
+                continue
+            if x[0] == y[0] and x[1] and y[1] and x[2] != y[2]:
+                found = True
+            else:
+                return False
+    return found
+
+
+def _lib_runs(ranges, excl):
+    """runs [lo, hi] of the values the library keeps of compacted ranges after
+    trimming the excluded values (adjacent ranges are not merged)"""
+    out = []
+    for lo, hi in ranges:
+        start = None
+        for v in range(lo, hi + 2):
+            inside = v <= hi and v not in excl
+            if inside and start is None:
+                start = v
+            if not inside and start is not None:
+                out.append([start, v - 1])
+                start = None
+    return out
+
+
+def mixed_run_collection(rcp):
+    """Mechanism predicate of finding 'duplicate-bin-names': the coverpoint has a
+    bin array (or numeric auto-bins) that is NOT partitioned (no count, or count
+    >= number of values) and whose value list consists of >= 2 runs of which at
+    least one is a single value and at least one is longer.  The library names
+    single-value elements by a running index local to the array and elements of
+    a longer run by their flat index in the whole coverpoint, so two elements
+    can get the same name."""
+    cp = rcp.spec
+
+    def mixed(runs):
+        return len(runs) >= 2 and any(a == b for a, b in runs) and any(a != b for a, b in runs)
+    if not cp.get("bins"):
+        if rcp.fdesc["t"] == "enum":
+            return False
+        runs = _lib_runs([[rcp.tvalues[0], rcp.tvalues[-1]]], rcp.excluded)
+        nv = sum(b - a + 1 for a, b in runs)
+        return rcp.auto_bin_max >= nv and mixed(runs)
+    for name, b in cp["bins"]:
+        if b["k"] != "array":
+            continue
+        runs = _lib_runs(_compact(b["items"]), rcp.excluded)
+        nv = sum(h - l + 1 for l, h in runs)
+        if (b.get("n") is None or b["n"] >= nv) and mixed(runs):
+            return True
+    return False
+
+
+def effective_weights(shape):
+    """weights as the library resolves them: item option, else covergroup option, else 1"""
+    cgw = (shape.cgspec.get("options") or {}).get("weight")
+
+    def w(spec):
+        o = spec.get("options") or {}
+        return o.get("weight", cgw if cgw is not None else 1)
+    return [w(c.spec) for c in shape.cps], [w(c.spec) for c in shape.crosses]
+
+
+def pick_finding(prop, mechs, priority):
+    """One result can carry one finding key.  A case that exhibits several known
+    mechanisms is only suppressible when ALL of them are listed: return the first
+    unlisted one if there is any, else the first by priority."""
+    from . import common
+    if not mechs:
+        return None
+    try:
+        known = common.open_findings(prop)
+    except Exception:
+        known = {}
+    ordered = [m for m in priority if m in mechs] + sorted(m for m in mechs if m not in priority)
+    for m in ordered:
+        if m not in known:
+            return m
+    return ordered[0]
